@@ -33,6 +33,32 @@ package filter
 //@   ensures config == nil || (len(config.Include) == 0 && len(config.Exclude) == 0) ==> res
 //@   ensures config != nil && !(len(config.Include) == 0 && len(config.Exclude) == 0) ==> (res <==> ((inclAll(config) || anyMatch(f, itemName, config.Include)) && !anyMatch(f, itemName, config.Exclude)))
 
+// ---- C10: applying a filter to a listing. passes(c, name) is the include/exclude rule as a mathematical predicate;
+// Apply accepts exactly the items whose extracted name passes, each of them an element of the listing.
+// (items is an interface value holding a slice: reflLen/reflIndex are its length and elements, see DESIGN 3.2.)
+//@ spec func passes(c *domain.FilterConfig, name string) bool = c == nil || (len(c.Include) == 0 && len(c.Exclude) == 0) || ((inclAll(c) || (exists pi int :: 0 <= pi && pi < len(c.Include) && mg(name, c.Include[pi]))) && !(exists pe int :: 0 <= pe && pe < len(c.Exclude) && mg(name, c.Exclude[pe])))
+
+//@ func (f *GlobFilter) createResultFromItems
+//@   property C10
+//@   safety
+//@   requires f != nil && typeis(items, "[]*domain.ModelInfo")
+//@   loop 1 invariant 0 <= i && i <= reflLen(items) && len(accepted) == i && (forall k int :: 0 <= k && k < i ==> accepted[k] == reflIndex(items, k))
+//@   ensures res != nil && fresh(res) && len(res.Accepted) == reflLen(items) && (forall k int :: 0 <= k && k < len(res.Accepted) ==> res.Accepted[k] == reflIndex(items, k))
+
+//@ func (f *GlobFilter) Apply
+//@   property C10
+//@   safety
+//@   pureparam nameExtractor
+//@   refines ports.Filter.Apply
+//@   requires f != nil && typeis(items, "[]*domain.ModelInfo") && (config != nil ==> len(config.Include) < 1000000 && len(config.Exclude) < 1000000)
+//@   modifies f.patternCache[all]
+//@   loop 1 invariant 0 <= i && i <= reflLen(items) && f.patternCache != nil && cacheOK(f)
+//@   loop 1 invariant forall k int :: 0 <= k && k < len(accepted) ==> (exists j int :: 0 <= j && j < i && accepted[k] == reflIndex(items, j)) && passes(config, fnapp(nameExtractor, accepted[k]))
+//@   loop 1 invariant forall j int :: 0 <= j && j < i && passes(config, fnapp(nameExtractor, reflIndex(items, j))) ==> (exists k int :: 0 <= k && k < len(accepted) && accepted[k] == reflIndex(items, j))
+//@   ensures res1 == nil ==> res0 != nil && fresh(res0)
+//@   ensures res1 == nil ==> forall k int :: 0 <= k && k < len(res0.Accepted) ==> (exists j int :: 0 <= j && j < reflLen(items) && res0.Accepted[k] == reflIndex(items, j)) && passes(config, fnapp(nameExtractor, res0.Accepted[k]))
+//@   ensures res1 == nil ==> forall j int :: 0 <= j && j < reflLen(items) && passes(config, fnapp(nameExtractor, reflIndex(items, j))) ==> (exists k int :: 0 <= k && k < len(res0.Accepted) && res0.Accepted[k] == reflIndex(items, j))
+
 //@ func (f *GlobFilter) ClearCache
 //@   property C10
 //@   modifies f.patternCache
